@@ -84,8 +84,9 @@ func TestC03_Relists(t *testing.T) {
 		a := c.api
 		a.gated = true
 		a.holdWatch = true
-		watchMode := rapid.SampledFrom([]string{"dead", "faithful", "faulty", "faulty"}).Draw(t, "watch")
+		watchMode := rapid.SampledFrom([]string{"dead", "hung", "faithful", "faulty", "faulty"}).Draw(t, "watch")
 		a.watchDead = watchMode == "dead"
+		a.watchHang = watchMode == "hung" // every Watch() call blocks until its context is cancelled
 		fi := rapid.SampledFrom([]int{-1, 1, 2, 3, 5, 7}).Draw(t, "filter")
 		accept := func(metav1.Object) bool { return true }
 		if fi >= 0 {
@@ -215,7 +216,7 @@ func TestC03_Relists(t *testing.T) {
 			atCall := !final && rapid.Bool().Draw(t, "snapshotAtCall")
 			if !final {
 				n := mutate(rapid.IntRange(0, 3).Draw(t, "during"), "while the list is in flight")
-				if watchMode != "dead" {
+				if watchMode != "dead" && watchMode != "hung" {
 					inflightEvents += n
 				}
 			}
@@ -245,7 +246,7 @@ func TestC03_Relists(t *testing.T) {
 					} else {
 						allowed[""] = true
 					}
-					if watchMode != "dead" {
+					if watchMode != "dead" && watchMode != "hung" {
 						lv := objVersion(l)
 						for _, e := range logcopy {
 							if objKey(e.obj) == key && e.rv > lv && e.typ != watch.Deleted && accept(e.obj) {
